@@ -253,6 +253,9 @@ func parseJSONString(s string) (string, bool, error) {
 }
 
 func parseNumber(s string) (any, bool) {
+	if !isDecimal(s) {
+		return nil, false // not in the documented number syntax
+	}
 	z, err := strconv.ParseInt(s, 10, 64)
 	if err == nil {
 		return z, true
@@ -262,6 +265,27 @@ func parseNumber(s string) (any, bool) {
 		return v, true
 	}
 	return nil, false
+}
+
+// isDecimal reports whether s consists of an optional sign, one or more
+// decimal digits, and optionally a decimal point followed by one or more
+// digits. The strconv parsers accept a much larger language (exponents, hex
+// floats, underscores, Inf, NaN) that is not part of the query syntax, and
+// whose non-finite values cannot be encoded as JSON.
+func isDecimal(s string) bool {
+	if s != "" && (s[0] == '+' || s[0] == '-') {
+		s = s[1:]
+	}
+	ip, fp, hasPoint := strings.Cut(s, ".")
+	if ip == "" || hasPoint && fp == "" {
+		return false
+	}
+	for _, c := range ip + fp {
+		if c < '0' || c > '9' {
+			return false
+		}
+	}
+	return true
 }
 
 func parseConstant(s string) (any, bool) {
